@@ -226,6 +226,18 @@ def loops_in_ctx(ctx):
     return [c[1] for c in ctx if c[0] == "loop"]
 
 
+def isnone(t):
+    """The interpreter's folding of ``t is None`` (distributed over cond-terms)."""
+    from .absint import mk_cond, FALSE
+    if t[0] == "cond":
+        return mk_cond(t[1], isnone(t[2]), isnone(t[3]))
+    if is_const(t):
+        return const(t[1] is None)
+    if t[0] in ("ref", "tuple", "drawn", "fstr", "bound", "func", "class", "lambda", "closure"):
+        return FALSE
+    return ("cmp", "Is", t, NONE)
+
+
 def norm_guard(c, p):
     while isinstance(c, tuple) and c and c[0] == "not":
         c, p = c[1], not p
